@@ -1,3 +1,4 @@
+import Heathcliff.Proofs.C05U
 import Heathcliff.Model.Evaluator
 import Heathcliff.Proofs.C07L
 namespace HC.C05
@@ -45,5 +46,56 @@ theorem ckks_drop_phase {Q' qL : Nat} (x : Int) : (x % ((Q' * qL : Nat) : Int)) 
 theorem ckks_rescale_error {qL : Nat} (hq : 0 < qL) {x x' ρ : Int} {E : Nat} (hx : x = qL * x' + ρ) (hρ : ρ.natAbs ≤ qL * E) :
     (x' * qL - x).natAbs ≤ qL * E := HC.ckks_rescale_error hq hx hρ
 
+
+
+/-! ### modulus switching / rescaling of the model at ciphertext level (rounding division per coefficient, BGV correction, drop), phase consequences, level walk
+    (statements, hypothesis bundles and non-vacuity instances: Heathcliff/Proofs/C05U.lean, section "Property theorems") -/
+
+/-- U1 (BFV `mod_switch_to_next`): for a canonical coefficient-form ciphertext at a level with ≥ 2 moduli the model returns a
+    ciphertext with the same number of polynomials, coefficient form, same correction factor, `l.size - 1` components of `l.n`
+    coefficients, and coefficient j of component i of polynomial k equals ⌊(X + q_L/2)/q_L⌋ mod q_i for the CRT value X of the
+    source coefficient (`c05u_RoundDivOf`); a CRT value exists and is unique (`c05u_crt_exists`, `c05u_crt_unique`) -/
+theorem modSwitchScaleNext_bfv_spec : type_of% @HC.modSwitchScaleNext_bfv_spec := @HC.modSwitchScaleNext_bfv_spec
+
+/-- U1 (CKKS `rescale_to_next`): NTT-form input and output; the output is canonical and its coefficient form (INTT) is the rounding
+    division of the CRT value of the input's coefficient form (`c05u_RoundDivOfNtt`) -/
+theorem modSwitchScaleNext_ckks_spec : type_of% @HC.modSwitchScaleNext_ckks_spec := @HC.modSwitchScaleNext_ckks_spec
+
+/-- U2 (BGV `mod_switch_to_next`): NTT-form input and output, new correction factor cf·q_L^{-1} mod t, the output is canonical and
+    its coefficient form is Y mod q_i, Y = (X − [X]_{q_L})/q_L − [−X·q_L^{-1}]_t (`c05u_BgvDivOfNtt`, `c05u_bgvY`) -/
+theorem modSwitchScaleNext_bgv_spec : type_of% @HC.modSwitchScaleNext_bgv_spec := @HC.modSwitchScaleNext_bgv_spec
+
+/-- the results of the three divisions are canonical ciphertexts of the next level -/
+theorem modSwitchScaleNext_next_canon : type_of% @HC.modSwitchScaleNext_next_canon := @HC.modSwitchScaleNext_next_canon
+
+/-- U1, phase level (size 2, integer polynomials, any secret s): q_L·phase(ct') = phase(ct) + ρ, 2‖ρ‖∞ ≤ q_L·(1 + ‖s‖₁) -/
+theorem modSwitchScaleNext_round_phase : type_of% @HC.modSwitchScaleNext_round_phase := @HC.modSwitchScaleNext_round_phase
+
+/-- U2, phase level (size 2): q_L·phase(ct') = phase(ct) + δ with t ∣ δ, ‖δ‖∞ ≤ q_L·t·(1 + ‖s‖₁) -/
+theorem modSwitchScaleNext_bgv_phase : type_of% @HC.modSwitchScaleNext_bgv_phase := @HC.modSwitchScaleNext_bgv_phase
+
+/-- U2, message preservation: phase ≡ cf·m (mod t) before ⇒ phase' ≡ cf'·m (mod t) after, cf' the model's new correction factor -/
+theorem modSwitchScaleNext_bgv_message : type_of% @HC.modSwitchScaleNext_bgv_message := @HC.modSwitchScaleNext_bgv_message
+
+/-- REFUSALS of `modSwitchScaleNext`: last level; BFV in NTT form; CKKS / BGV in coefficient form -/
+theorem modSwitchScaleNext_refusals : type_of% @HC.modSwitchScaleNext_refusals := @HC.modSwitchScaleNext_refusals
+
+/-- U3 (`mod_switch_drop_to_next`): succeeds (for CKKS: on NTT form), same number of polynomials, representation and correction
+    factor, one component fewer, every remaining residue unchanged, canonical at the next level -/
+theorem modSwitchDropNext_spec : type_of% @HC.modSwitchDropNext_spec := @HC.modSwitchDropNext_spec
+
+/-- U3, value: the CRT value of every coefficient after the drop is the old one modulo Q' = Q/q_L, so the phase is unchanged mod Q' -/
+theorem modSwitchDropNext_crt : type_of% @HC.modSwitchDropNext_crt := @HC.modSwitchDropNext_crt
+
+/-- REFUSALS of `modSwitchDropNext`: last level; CKKS in coefficient form -/
+theorem modSwitchDropNext_refusals : type_of% @HC.modSwitchDropNext_refusals := @HC.modSwitchDropNext_refusals
+
+/-- U4: the level walk along `switchSteps` refuses upward targets, is the identity on the current level, and otherwise is one
+    step at the current level followed by the walk from the level below (iterating "next") -/
+theorem switchTo_walk : type_of% @HC.switchTo_walk := @HC.switchTo_walk
+
+/-- U4: on a well-formed chain every downward walk succeeds and ends exactly on the target level (canonical there), for the plain
+    drop and for the three scheme-specific switches -/
+theorem switchTo_ends_on_target : type_of% @HC.switchTo_ends_on_target := @HC.switchTo_ends_on_target
 
 end HC.C05
